@@ -152,9 +152,9 @@ def cases(ctx):
         g["queries"].append([q["start"], q["range"]])
     rng = ctx.rng
     k = 10 if ctx.thorough else 1
-    out += [_rand_poly_case(rng) for _ in range(300 * k)]
+    out += [_rand_poly_case(rng) for _ in range(500 * k)]
     out += [_rand_merge_case(rng) for _ in range(200 * k)]
-    out += [_rand_graph_case(rng) for _ in range(300 * k)]
+    out += [_rand_graph_case(rng) for _ in range(1000 * k)]
     return out
 
 
@@ -233,7 +233,9 @@ def _exec_poly(case):
     cold = _lanelet(2, le, c, r)                       # never asked for .distance before the first interpolation
     for n, sn in enumerate(sns):
         obj = cold if n == len(sns) // 2 else la
-        st, res = _call(lambda: obj.interpolate_position(sn / sd))
+        # integral arc lengths are passed alternately as int and as float (both are real numbers)
+        arg = sn // sd if (sn % sd == 0 and n % 2 == 1) else sn / sd
+        st, res = _call(lambda: obj.interpolate_position(arg))
         pts = [[0, 0, 0]] * 3
         if st == "ok":
             try:
